@@ -1,6 +1,7 @@
 """Property id -> (run(pid, tier), replay(pid, path))."""
 import helpers
 import corecheck
+import derivecheck
 
 ASSUME_COMMON = [
     "TLC 1.8.0 and the CommunityModules Json/IOUtils overrides are trusted",
@@ -107,6 +108,7 @@ C13 = {
 }
 
 CHECKS = {
+    "C16": (derivecheck.run, derivecheck.replay),
     **{p: (corecheck.run, corecheck.replay) for p in corecheck.CORE_PROPS},
     "C13": (lambda pid, tier: helpers.run(pid, tier, C13), lambda pid, path: helpers.replay(pid, C13, path)),
     "C05": (lambda pid, tier: helpers.run(pid, tier, C05), lambda pid, path: helpers.replay(pid, C05, path)),
